@@ -720,6 +720,14 @@ impl DtlsInner {
                             ctx.incomplete_msg_seq = msg.message_seq;
                         }
 
+                        // Only the next contiguous fragment can be appended. A fragment
+                        // that arrives out of order (or overlaps) is dropped here and is
+                        // recovered by the peer's retransmission; appending it blindly
+                        // would assemble a corrupt message and poison the transcript.
+                        if msg.fragment_offset as usize != ctx.incomplete_handshake.len() {
+                            continue;
+                        }
+
                         ctx.incomplete_handshake.extend_from_slice(&msg.body[..]);
 
                         if ctx.incomplete_handshake.len() < msg.total_length as usize {
